@@ -40,6 +40,27 @@ Theorem c23_small_buffer_refuted :
 Proof. vm_compute. repeat split. Qed.
 Print Assumptions c23_small_buffer_refuted.
 
+(** Same side, overlapping ranges (inside -> inside, destination 16 bytes above the source, 64
+    bytes, granularity 16; confirmed on the real component, known finding F-C23-3): with a
+    one-granule buffer each granule is written over the next source granule before that one is
+    read, the move is acknowledged and the destination holds the first granule four times, not
+    the bytes the source range held when the move was requested.  With a buffer that lets all
+    four reads go ahead of the writes the same move is exact: for overlapping ranges the result
+    depends on the buffer size and on when the memory answers. *)
+Definition overlap_run (bufsize : N) : env * list tick_obs * N :=
+  env_run (mk_env (dm_init bufsize 16 16 2 8 8) (pat 128 1) (pat 128 101) [] [])
+          (mk_instant [mk_move 77 1 0 16 64 0 0] [] [] [] [] 1 2 2 :: repeat serve_all 60).
+
+Theorem c23_same_side_overlap_refuted :
+  (let '(e, obs, oc) := overlap_run 16 in
+   oc = 0 /\ length (flat_map to_acks obs) = 1%nat /\
+   mem_read (e_mem_in e) 16 64 <> mem_read (pat 128 1) 0 64 /\
+   mem_read (e_mem_in e) 16 64 = mem_read (pat 128 1) 0 16 ++ mem_read (pat 128 1) 0 16 ++ mem_read (pat 128 1) 0 16 ++ mem_read (pat 128 1) 0 16) /\
+  (let '(e, obs, oc) := overlap_run 64 in
+   oc = 0 /\ length (flat_map to_acks obs) = 1%nat /\ mem_read (e_mem_in e) 16 64 = mem_read (pat 128 1) 0 64).
+Proof. vm_compute. repeat split; discriminate. Qed.
+Print Assumptions c23_same_side_overlap_refuted.
+
 (** Setting for the universally quantified theorems: [env_run (mk_env (dm_init ...) mi mo [] []) script]
     is the data mover driven for any number of ticks by ANY script: any moves arrive at Top, the
     two memories serve the requests taken from the ports in any order and after any delay,
